@@ -332,6 +332,10 @@ def apply_event(tbl, ev, ctx: Ctx):
                 fresh = fresh >> pdt.mutate(**{first: fresh[first]}) >> pdt.select(*[c for c in df.columns if c != "extra__"])
         if back:
             fresh = fresh >> pdt.rename(back)
+        if len(ev) > 1 and ev[1] == "sliced":
+            # ["transfer", "sliced"]: the materialised table carries a slice_head (of all its rows), so a
+            # later filter / summarize needs a subquery at the alias node the transfer inserts
+            fresh = fresh >> pdt.slice_head(df.height + 1)
         return pdt.transfer_col_references(fresh, tbl)
     raise ValueError(f"unknown event {k!r}")
 
